@@ -778,12 +778,25 @@ def extra_obligations(tier):
     """BaseFiles.if_none_match is translated to Gallina from the source in BAIZE_REPO as it is now, and coqc re-checks
     C14/Translated.v (translated function = C14.Model.if_none_match, for all texts) against the fresh definition; the
     PyStr functions the translation is made of are compared with the interpreter's own str methods (the PyStr case
-    stream is pystr_checks in tools/py2coq.py)."""
+    stream is pystr_checks in tools/py2coq.py).
+    In addition (tools/py2coq_c14.py, C14/TranslatedMore.v): BaseFiles.if_modified_since and set_response_headers of
+    baize/staticfiles.py, Files.file_response and Files.__call__ of baize/wsgi/staticfiles.py and baize/asgi/staticfiles.py are
+    translated the same way (parsedate_to_datetime(..).timestamp(), int(<float>), generate_etag, the path functions: arguments)
+    and coqc re-checks that they are the model's if_modified_since / serve Files on the header texts the environ / scope holds,
+    and, from the translated definitions, that a 304 is only sent when the validator that counts agrees; C14/PyLib.v is
+    compared with the interpreter.  A source the translator refuses is not applicable (None)."""
     import importlib.util
     spec = importlib.util.spec_from_file_location("py2coq", os.path.join(core.VERIF, "tools", "py2coq.py"))
     py2coq = importlib.util.module_from_spec(spec)
     spec.loader.exec_module(py2coq)
-    return py2coq.obligations(PID, core.REPO, core.VERIF)
+    spec = importlib.util.spec_from_file_location("py2coq_c14", os.path.join(core.VERIF, "tools", "py2coq_c14.py"))
+    more = importlib.util.module_from_spec(spec)
+    spec.loader.exec_module(more)
+    from concurrent.futures import ThreadPoolExecutor
+    with ThreadPoolExecutor(2) as ex:
+        a = ex.submit(py2coq.obligations, PID, core.REPO, core.VERIF)
+        b = ex.submit(more.obligations, core.REPO, core.VERIF)
+        return list(a.result()) + list(b.result())
 
 
 if __name__ == "__main__":
